@@ -1165,6 +1165,42 @@ def simp(v):
     return v
 
 
+def summarise_appends(flow) -> dict:
+    """{("acc", name): comprehension IR} for every local list that is provably `[value(x) for x in S]` although it is spelled as
+    an accumulation loop with intermediate statements (`L = []; for x in S: t = ..; t.remove(..); L.append(g(x, t))`), which the
+    syntactic loop-folding of core._Canon leaves alone.  Conditions: one initialisation to the empty list, one `append`, sited in
+    exactly one loop more than the initialisation and under the same guards, no other write to the list, the loop iterates an
+    unfiltered one-to-one view of a sequence, and the appended value depends on the iteration only through the loop's element.
+    A rule can substitute these (subst + simp) into the values it reads; nothing is substituted by the engine itself."""
+    out = {}
+    by = {}
+    for f in flow.facts:
+        if isinstance(f.target, str) and f.kind in ("init", "append", "store", "augstore", "remove", "mutate"):
+            by.setdefault(f.target, []).append(f)
+    for name, fs in by.items():
+        inits = [f for f in fs if f.kind == "init"]
+        apps = [f for f in fs if f.kind == "append"]
+        if len(inits) != 1 or len(apps) != 1 or len(fs) != 2 or simp(inits[0].value) != ("list", ()) or apps[0].op != "append":
+            continue
+        i0, a0 = inits[0], apps[0]
+        if len(a0.loops) != len(i0.loops) + 1 or a0.loops[:len(i0.loops)] != i0.loops or a0.guards != i0.guards or a0.seq < i0.seq:
+            continue
+        lp = a0.loops[-1]
+        if lp.kind != "for":
+            continue
+        m = as_map(simp(lp.iter))
+        if m is None or m[3]:
+            continue
+        base = m[2]
+        bv = ("bv", "_s", next(_fresh))
+        val = simp(subst(simp(a0.value), {("elem", base, lp.id): bv}))
+        if contains(val, lambda t: isinstance(t, tuple) and len(t) == 3 and t[0] in ("elem", "idx", "key", "val", "carried", "after") and t[2] == lp.id) \
+                or contains(val, lambda t: isinstance(t, tuple) and t and t[0] in ("unknown", "mutated")) or contains(val, lambda t: t == ("acc", name)):
+            continue
+        out[("acc", name)] = ("comp", "list", val, ((bv, base, ()),))
+    return out
+
+
 # ------------------------------------------------------------------ pattern matching
 
 def V(name):
